@@ -45,11 +45,11 @@ Fixpoint a85_decode (src : bytes) (nb : nat) (v : N) (out : list N) : res bytes 
   match src with
   | [] =>
     match nb with
-    | O => Ok (rev out)
+    | O => Ok (frev out)
     | S O => Err (wd "corrupt")
     | _ =>
       let v' := fold_left (fun acc _ => (acc * 85 + 84) mod 4294967296) (seq 0 (5 - nb)) v in
-      Ok (rev out ++ firstn (nb - 1) (word_bytes v'))
+      Ok (frev out ++ firstn (nb - 1) (word_bytes v'))
     end
   | c :: rest =>
     if c <=? 32 then a85_decode rest nb v out
